@@ -29,19 +29,19 @@ func (r Result) String() string { return [...]string{"unsat", "sat", "unknown"}[
 
 // Stats are accumulated per solver (per worker) and merged by the caller.
 type Stats struct {
-	Queries    int
-	Sat        int
-	Unsat      int
-	Unknown    int
-	BySolver   map[string]int
-	Time       time.Duration
-	MaxQuery   time.Duration
-	Fallbacks  int
+	Queries      int
+	Sat          int
+	Unsat        int
+	Unknown      int
+	BySolver     map[string]int
+	Time         time.Duration
+	MaxQuery     time.Duration
+	Fallbacks    int
 	QuickUnknown int
 	HardTimeouts int
-	Errors     []string
-	CrossOK    int
-	CrossDiffs []string
+	Errors       []string
+	CrossOK      int
+	CrossDiffs   []string
 }
 
 func (s *Stats) Merge(o *Stats) {
@@ -71,18 +71,18 @@ func (s *Stats) Merge(o *Stats) {
 // current path condition, and falls back to one-shot cvc5 / cvc5 int-blasting /
 // z3-new on `unknown`.
 type Solver struct {
-	ctx       *Ctx
-	cmd       *exec.Cmd
-	in        io.WriteCloser
-	out       *bufio.Reader
-	defined   map[int]bool
-	declUF    map[string]bool
-	stack     []*Term
-	TimeoutMs int
-	Stats     Stats
-	ArithHint bool // try cvc5 --solve-bv-as-int first on fallback
-	Cross     bool // cross-check every query with cvc5 one-shot
-	dead      bool
+	ctx                     *Ctx
+	cmd                     *exec.Cmd
+	in                      io.WriteCloser
+	out                     *bufio.Reader
+	defined                 map[int]bool
+	declUF                  map[string]bool
+	stack                   []*Term
+	TimeoutMs               int
+	Stats                   Stats
+	ArithHint               bool // try cvc5 --solve-bv-as-int first on fallback
+	Cross                   bool // cross-check every query with cvc5 one-shot
+	dead                    bool
 	curTimeout, lastTimeout int
 }
 
